@@ -50,7 +50,7 @@ Print Assumptions C18_self_contained_correct.
    type-preferring resolution of 1's import is lost. *)
 Definition c18_dep (t : N) (target : spec) : dep :=
   {| d_text := t; d_filelike := false; d_code := ROk target 0; d_type := RNone; d_dyn := false;
-     d_deno_types := false |}.
+     d_deno_types := false; d_attr := 0 |}.
 Definition c18_graph : graph :=
   {| g_kind := KTypesOnly; g_roots := [9];
      g_slots := [(1, SMod {| m_kind := MkJs; m_spec := 1; m_media := MTypeScript; m_deps := [c18_dep 10 2];
